@@ -1340,3 +1340,135 @@ Proof.
   - exists [], y. split; [reflexivity|]. unfold terminal. rewrite Hp. split; reflexivity.
   - exists [], y. split; [reflexivity|]. unfold terminal. rewrite Hp. split; reflexivity.
 Qed.
+
+(* ============================================================ Part 4: which delay
+   The delay waited after attempt k is the policy's k-th delay (Backoff.delays, whose closed form is
+   C07_delay_fixed / C07_delay_exp), jittered with the draw of attempt k. *)
+Definition delay_formula (c : lcfg) (k : N) : N :=
+  jit (p_jitter (lc_policy c)) (nth (N.to_nat (k - 1)) (delays (lc_policy c)) 0) (lc_js c k).
+
+(* the iterator after m calls of next() *)
+Definition bsinv (c : lcfg) (bs : bstate) (m : N) : Prop :=
+  b_policy bs = lc_policy c /\ m + b_remaining bs = p_count (lc_policy c) /\
+  base_delays_from (N.to_nat (b_remaining bs)) bs = skipn (N.to_nat m) (delays (lc_policy c)).
+
+Lemma bsinv_init c : bsinv c (b_new (lc_policy c)) 0.
+Proof. split; [reflexivity|]. split; [reflexivity|]. reflexivity. Qed.
+
+Lemma skipn_cons_nth (l : list N) : forall m x t,
+  skipn m l = x :: t -> nth m l 0 = x /\ skipn (S m) l = t.
+Proof.
+  induction l as [|a l IH]; intros m x t H.
+  - destruct m; discriminate.
+  - destruct m as [|m].
+    + cbn in H. injection H as <- <-. split; reflexivity.
+    + cbn [skipn] in H. destruct (IH m x t H) as [H1 H2]. split; [exact H1|exact H2].
+Qed.
+
+Lemma bsinv_next c bs m js d bs' :
+  bsinv c bs m -> b_next js bs = Some (d, bs') ->
+  d = jit (p_jitter (lc_policy c)) (nth (N.to_nat m) (delays (lc_policy c)) 0) js /\
+  bsinv c bs' (m + 1).
+Proof.
+  intros (Hp & Hm & Hl) Hn.
+  assert (Hr : 0 < b_remaining bs).
+  { unfold b_next in Hn. destruct (0 <? b_remaining bs) eqn:E; [apply N.ltb_lt; exact E|discriminate]. }
+  destruct (b_next_some js bs Hr) as (s' & Hn' & Hpf & Hrem). rewrite Hn' in Hn. injection Hn as <- <-.
+  pose proof (ndj_policy bs) as Hpol.
+  destruct (N.to_nat (b_remaining bs)) as [|r] eqn:Er; [lia|].
+  cbn [base_delays_from] in Hl.
+  destruct (next_delay_and_jitter bs) as [[d0 j0] s0] eqn:E0. cbn [fst snd] in *.
+  destruct (skipn_cons_nth (delays (lc_policy c)) (N.to_nat m) d0 (base_delays_from r s0) (eq_sym Hl))
+    as [Hnth Hskip].
+  split; [rewrite Hp, Hnth; reflexivity|].
+  split; [rewrite (same_pf_policy _ _ Hpf), Hpol; exact Hp|]. split; [lia|].
+  replace (N.to_nat (b_remaining s')) with r by lia.
+  rewrite (base_delays_same_pf r s' s0 Hpf). replace (N.to_nat (m + 1)) with (S (N.to_nat m)) by lia.
+  symmetry. exact Hskip.
+Qed.
+
+Definition vinv (c : lcfg) (y : lsys) : Prop :=
+  match l_ph (y_s y) with
+  | LAwaitStart => bsinv c (l_bs (y_s y)) 0 /\ l_k (y_s y) = 0
+  | LAttempt _ => bsinv c (l_bs (y_s y)) (l_k (y_s y) - 1) /\ 1 <= l_k (y_s y)
+  | LDelay _ | LAwaitRetry =>
+      bsinv c (l_bs (y_s y)) (l_k (y_s y)) /\ 1 <= l_k (y_s y) /\
+      l_delay (y_s y) = delay_formula c (l_k (y_s y))
+  | _ => True
+  end /\
+  forall k dl un run cut, In (RDelay k dl un run cut) (y_log y) -> (dl = delay_formula c k /\ 1 <= k <= p_count (lc_policy c)).
+
+Lemma vinv_init c : vinv c (lsys0 c).
+Proof. split; [split; [apply bsinv_init|reflexivity]|intros k dl un run cut []]. Qed.
+
+Lemma vinv_step unicast tbl c y e y' :
+  vinv c y -> lsys_step unicast tbl c y e = LOk y' -> vinv c y'.
+Proof.
+  intros [Hph Hlg] Hstep.
+  destruct (lsys_step_fields tbl unicast c y e y' Hstep) as (_ & o & Hl & _ & _ & _ & _ & _ & Hlog).
+  cbv zeta in Hlog. unfold vinv. rewrite Hlog. clear Hlog.
+  unfold lstep in Hl. destruct (l_ph (y_s y)) as [|u|d| | |] eqn:Hp.
+  - destruct Hph as [Hb Hk].
+    destruct e as [ue| |[]]; injection Hl as Hs _; rewrite <- Hs; unfold log_step; rewrite Hp;
+      cbn [l_ph l_k l_bs l_delay mkl with_lph]; try rewrite Hp; (split; [|exact Hlg]);
+      try (split; assumption); try exact I.
+    split; [exact Hb|lia].
+  - destruct Hph as [Hb Hk].
+    destruct e as [ue| |a];
+      try (injection Hl as Hs _; rewrite <- Hs; unfold log_step; rewrite Hp; split; [split; assumption|exact Hlg]).
+    destruct (ustep tbl (lc_unit c) u ue) as [[u' outs]|]; [|discriminate].
+    destruct (ph u') eqn:Hph'.
+    5:{ destruct (finish_attempt c (y_s y) u') as [r|] eqn:Hf; cbn [obind] in Hl; [|discriminate].
+        injection Hl as Hs _. rewrite <- Hs. cbn [fst].
+        assert (Hlg' : forall x lg, (forall k dl un run cut, In (RDelay k dl un run cut) lg -> (dl = delay_formula c k /\ 1 <= k <= p_count (lc_policy c))) ->
+                       forall k dl un run cut,
+                         In (RDelay k dl un run cut)
+                            (match l_done (fst r) with
+                             | r0 :: _ => RAttempt (ar_no r0) (ar_result r0) (ar_slow r0) (ar_time r0) x :: lg
+                             | [] => lg end) -> (dl = delay_formula c k /\ 1 <= k <= p_count (lc_policy c))).
+        { intros x lg H k dl un run cut Hin. destruct (l_done (fst r)); [eapply H; exact Hin|].
+          destruct Hin as [Hin|Hin]; [discriminate|eapply H; exact Hin]. }
+        unfold finish_attempt in Hf. destruct (ures_success (uresult u')).
+        - injection Hf as <-. unfold log_step. rewrite Hp. cbn [fst l_ph mkl].
+          split; [exact I|]. apply (Hlg' _ _ Hlg).
+        - destruct (l_k (y_s y) <? lc_total c).
+          + destruct (b_next (lc_js c (l_k (y_s y))) (l_bs (y_s y))) as [[dl bs']|] eqn:Hn; [|discriminate].
+            injection Hf as <-. unfold log_step. rewrite Hp. cbn [fst l_ph l_k l_bs l_delay mkl].
+            destruct (bsinv_next c (l_bs (y_s y)) (l_k (y_s y) - 1) (lc_js c (l_k (y_s y))) dl bs' Hb Hn)
+              as [Hd Hb'].
+            split; [|apply (Hlg' _ _ Hlg)].
+            replace (l_k (y_s y) - 1 + 1) with (l_k (y_s y)) in Hb' by lia.
+            split; [exact Hb'|]. split; [exact Hk|]. exact Hd.
+          + injection Hf as <-. unfold log_step. rewrite Hp. cbn [fst l_ph mkl].
+            split; [exact I|]. apply (Hlg' _ _ Hlg). }
+    all: injection Hl as Hs _; rewrite <- Hs; unfold log_step; rewrite Hp;
+      cbn [l_ph l_k l_bs l_delay mkl with_lph]; split; [split; assumption|exact Hlg].
+  - destruct Hph as (Hb & Hk & Hdl).
+    destruct (devent_of e) as [de|];
+      [|injection Hl as Hs _; rewrite <- Hs; unfold log_step; rewrite Hp; split; [split; [exact Hb|split; [exact Hk|exact Hdl]]|exact Hlg]].
+    destruct (dstep tbl d de) as [[d' outs]|]; [|discriminate].
+    destruct (d_done d'); injection Hl as Hs _; rewrite <- Hs; unfold log_step; rewrite Hp;
+      cbn [l_ph l_k l_bs l_delay mkl with_lph]; (split; [first [exact I|split; [exact Hb|split; [exact Hk|exact Hdl]]]|]); [|exact Hlg].
+    intros k dl un run cut [Hin|Hin]; [|eapply Hlg; exact Hin].
+    injection Hin as <- <- _ _ _. split; [exact Hdl|]. destruct Hb as (_ & Hm & _). lia.
+  - destruct Hph as (Hb & Hk & Hdl).
+    destruct e as [ue| |[]]; injection Hl as Hs _; rewrite <- Hs; unfold log_step; rewrite Hp;
+      cbn [l_ph l_k l_bs l_delay mkl with_lph]; try rewrite Hp; (split; [|exact Hlg]);
+      try (split; [exact Hb|split; [exact Hk|exact Hdl]]); try exact I.
+    split; [|lia]. replace (l_k (y_s y) + 1 - 1) with (l_k (y_s y)) by lia. exact Hb.
+  - injection Hl as Hs _. rewrite <- Hs. unfold log_step. rewrite Hp. split; [exact I|exact Hlg].
+  - injection Hl as Hs _. rewrite <- Hs. unfold log_step. rewrite Hp. split; [exact I|exact Hlg].
+Qed.
+
+Theorem delay_is_configured unicast tbl c : forall es y,
+  lsys_run unicast tbl c (lsys0 c) es = LOk y ->
+  forall k dl un run cut, In (RDelay k dl un run cut) (y_log y) -> (dl = delay_formula c k /\ 1 <= k <= p_count (lc_policy c)).
+Proof.
+  intros es y H.
+  assert (G : forall es y0 y1, vinv c y0 -> lsys_run unicast tbl c y0 es = LOk y1 -> vinv c y1).
+  { clear. induction es as [|e es IH]; intros y0 y1 Hi H; cbn [lsys_run] in H.
+    - injection H as <-. exact Hi.
+    - destruct (lsys_step unicast tbl c y0 e) as [y2| |] eqn:E; try discriminate.
+      eapply IH; [|exact H]. eapply vinv_step; eassumption. }
+  exact (proj2 (G es (lsys0 c) y (vinv_init c) H)).
+Qed.
